@@ -424,16 +424,19 @@ def decHeader (bs : Bytes) : Option (Header × Bytes) :=
     some (⟨rd32 a0 a1 a2 a3, rd32 b0 b1 b2 b3, rd32 c0 c1 c2 c3, rd32 d0 d1 d2 d3⟩, r)
   | _ => none
 
+/-- `readHeaderFrom` inside unmarshal: the 16 octets and the 16..0x10000 bounds test. -/
+def decHeaderChecked (bs : Bytes) : Option (Header × Bytes) :=
+  match decHeader bs with
+  | some (h, r) => if h.len.toNat < 16 || h.len.toNat > 0x10000 then none else some (h, r)
+  | none => none
+
 /-- One arm of unmarshal's switch.  `none` = any error (unmarshal maps them all to
 ErrUnmarshalPDUFailed).  Tags consume the whole rest. -/
 def decField (isReplace udhi : Bool) : Kind → Bytes → Option (FVal × Bytes)
   | .cstr, bs => (readCStr bs).map fun (s, r) => (.cstr s, r)
   | .u8, bs => (readByte bs).map fun (b, r) => (.u8 b, r)
   | .bool, bs => (readByte bs).map fun (b, r) => (.bool (b == 1), r)
-  | .header, bs =>
-    match decHeader bs with
-    | some (h, r) => if h.len.toNat < 16 || h.len.toNat > 0x10000 then none else some (.header h, r)
-    | none => none
+  | .header, bs => (decHeaderChecked bs).map fun (h, r) => (.header h, r)
   | .esm, bs => (readByte bs).map fun (b, r) => (.esm (decEsm b), r)
   | .regdlv, bs => (readByte bs).map fun (b, r) => (.regdlv (decRegDlv b), r)
   | .addr, bs => (decAddr bs).map fun (a, r) => (.addr a, r)
@@ -443,20 +446,30 @@ def decField (isReplace udhi : Bool) : Kind → Bytes → Option (FVal × Bytes)
   | .sm, bs => (decSm isReplace udhi bs).map fun (m, r) => (.sm m, r)
   | .skipped _, bs => some (.skipped 0, bs)
 
-/-- unmarshal's loop.  `udhi` is the value the field named ESMClass holds so far. -/
+/-- What the field named ESMClass holds after field `f` was decoded to `v`. -/
+def udhiNext (u : Bool) (f : Field) (v : FVal) : Bool :=
+  if f.name = "ESMClass" then (match v with | .esm e => e.udhi | _ => u) else u
+
+/-- unmarshal's loop.  `udhi` is the value the field named ESMClass holds so far.
+Only the `*Header` arm returns early (non-zero command_status: the remaining fields keep
+their zero values). -/
 def decFields (isReplace : Bool) : Bool → List Field → Bytes → Option (List FVal)
   | _, [], _ => some []
   | udhi, f :: fs, bs =>
-    match decField isReplace udhi f.kind bs with
-    | none => none
-    | some (v, r) =>
-      let stop := match v with
-        | .header h => h.status != 0
-        | _ => false
-      if stop then some (v :: fs.map (fun g => zeroVal g.kind))
-      else
-        let udhi' := if f.name = "ESMClass" then (match v with | .esm e => e.udhi | _ => udhi) else udhi
-        match decFields isReplace udhi' fs r with
+    if f.kind = .header then
+      match decHeaderChecked bs with
+      | none => none
+      | some (h, r) =>
+        if h.status != 0 then some (.header h :: fs.map (fun g => zeroVal g.kind))
+        else
+          match decFields isReplace udhi fs r with
+          | some vs => some (.header h :: vs)
+          | none => none
+    else
+      match decField isReplace udhi f.kind bs with
+      | none => none
+      | some (v, r) =>
+        match decFields isReplace (udhiNext udhi f v) fs r with
         | some vs => some (v :: vs)
         | none => none
 
